@@ -18,13 +18,17 @@ inline std::vector<PlanItem> plan_modelspace(const Args& a, const char* profile)
     // profiles: "g" = cheap G-level predicates, "x" = expensive (2PGF-level), "s" = structural (no thermal part)
     std::vector<PlanItem> P; bool T = a.thorough(); std::string p = profile;
     auto add = [&](const char* s, int d, bool rich = true, bool raw = true, bool off = false) { PlanItem it; it.shape = s; it.depth = d; it.opts.rich = rich; it.opts.with_raw = raw; it.opts.with_offsets = off; P.push_back(it); };
-    if (p == "g" || p == "s") {
-        add("S1", T ? 3 : 2); add("S2", T ? 3 : 3); add("S3", T ? 3 : 2); add("S4", T ? 3 : 2); add("S5", T ? 3 : 2);
+    if (p == "g" || p == "s") {          // predicates that are cheap per state
+        add("S1", T ? 4 : 3); add("S2", T ? 4 : 3); add("S3", 3); add("S4", 3); add("S5", 3);
+        add("S6", 2, T); add("S7", 2, T);
+        if (T) { add("S4r", 2); add("S8", 1); add("S9", 1); add("S10", 1); }
+    } else if (p == "m") {               // predicates that are expensive per state (many analyses / many observables per state)
+        add("S1", T ? 3 : 2); add("S2", 3); add("S3", T ? 3 : 2); add("S4", T ? 3 : 2); add("S5", T ? 3 : 2);
         add("S6", 2, T); add("S7", 2, T);
         if (T) { add("S8", 1); add("S9", 1); add("S10", 1); }
-    } else if (p == "x") {
-        add("S1", T ? 2 : 1); add("S2", T ? 3 : 2); add("S3", T ? 2 : 1); add("S4", T ? 2 : 1);
-        add("S6", T ? 1 : 1, false); if (T) add("S7", 1, false);
+    } else if (p == "x") {               // two-particle predicates (reference cost O(6 D^4) per tuple and frequency triple)
+        add("S1", T ? 3 : 2); add("S2", 3); add("S3", T ? 2 : 1); add("S4", 2);
+        add("S6", 1, T); if (T) add("S7", 1, false);
     }
     if (!a.only.empty()) { std::vector<PlanItem> Q; for (auto& it : P) if (a.only.find(it.shape + ",") != std::string::npos || a.only == it.shape) Q.push_back(it); P.swap(Q); }
     return P;
